@@ -152,6 +152,9 @@ impl<K, V> IndexMap<K, V> {
 
 pub open spec fn keys_of<K, V>(s: Seq<(K, V)>) -> Seq<K> { s.map_values(|p: (K, V)| p.0) }
 
+/// pairwise distinct keys
+pub open spec fn kv_distinct<K, V>(s: Seq<(K, V)>) -> bool { forall|a: int, b: int| 0 <= a < b < s.len() ==> (#[trigger] s[a]).0 != (#[trigger] s[b]).0 }
+
 pub open spec fn sorted_i64(s: Seq<i64>) -> bool { forall|i: int, j: int| 0 <= i < j < s.len() ==> s[i] < s[j] }
 
 impl<V> IndexMap<i64, V> {
@@ -176,6 +179,20 @@ impl<V> IndexMap<i64, V> {
     pub fn keys(&self) -> (r: VxIter<&i64>)
         ensures derefs(r.seq()) == keys_of(self.kv()), r.seq().len() == self.kv().len(),
             forall|i: int| #![trigger r.seq()[i]] #![trigger self.kv()[i]] 0 <= i < self.kv().len() ==> *(r.seq()[i]) == self.kv()[i].0,
+    { unimplemented!() }
+
+    /// `(&map).into_iter()`: the pairs in order
+    #[verifier::external_body]
+    pub fn into_iter(&self) -> (r: VxIter<(&i64, &V)>)
+        ensures r.seq().len() == self.kv().len(),
+            forall|i: int| #![trigger r.seq()[i]] #![trigger self.kv()[i]] 0 <= i < self.kv().len() ==> *(r.seq()[i].0) == self.kv()[i].0 && *(r.seq()[i].1) == self.kv()[i].1,
+    { unimplemented!() }
+
+    /// IndexMap::from_iter on pairs with distinct keys: the pairs in order
+    #[verifier::external_body]
+    pub fn from_iter(it: VxIter<(i64, V)>) -> (r: IndexMap<i64, V>)
+        requires kv_distinct(it.seq()),
+        ensures r.kv() == it.seq(),
     { unimplemented!() }
 
     /// sort_keys: the same (key, value) pairs, keys strictly increasing (keys are distinct)
